@@ -5,6 +5,7 @@ import (
 	"fmt"
 	"testing"
 	"time"
+	"unicode/utf8"
 
 	"github.com/bmeg/grip/gripql"
 	"verif/internal/gripx"
@@ -32,6 +33,15 @@ func he(id, label, from, to string, hostile ...string) Write {
 	return Write{Kind: "addEdge", Elems: []Elem{bedge(id, label, from, to, nil)}, Hostile: hostile}
 }
 
+func hidx(label, field string, hostile ...string) Write {
+	return Write{Kind: "addIndex", Elems: []Elem{{Label: []byte(label), ID: []byte(field)}}, Hostile: hostile}
+}
+
+// hval writes a vertex whose property k has the given value
+func hval(id, label string, v interface{}) Write {
+	return Write{Kind: "addVertex", Elems: []Elem{bv(id, label, map[string]interface{}{"k": v})}, Hostile: []string{"value"}}
+}
+
 func bulk(w Write) Write {
 	w.Kind = "bulkAdd"
 	return w
@@ -44,12 +54,34 @@ type fixed struct {
 }
 
 func fixedCases() []fixed {
+	// into addresses the writes to graph A. Index fields get a suffix unique to the case
+	// (the index listing of the shared store is not isolated per graph, see
+	// findings/index-listing.md), and so does the property k of later vertex writes.
 	into := func(ws ...Write) func(ga, gb string) []Write {
 		return func(ga, gb string) []Write {
 			out := make([]Write, len(ws))
+			indexed := false
 			for i, w := range ws {
 				if w.Kind != "addGraph" {
 					w.Graph = []byte(ga)
+				}
+				switch {
+				case w.Kind == "addIndex":
+					e := w.Elems[0]
+					e.ID = append(append([]byte{}, e.ID...), ga...)
+					w.Elems = []Elem{e}
+					indexed = true
+				case indexed && len(w.Elems) == 1:
+					e := w.Elems[0]
+					d := map[string]interface{}{}
+					for k, v := range e.Data {
+						if k == "k" {
+							k += ga
+						}
+						d[k] = v
+					}
+					e.Data = d
+					w.Elems = []Elem{e}
 				}
 				out[i] = w
 			}
@@ -81,6 +113,12 @@ func fixedCases() []fixed {
 		{"edge-label-named-label", 0, into(he("ne", "label", "v1", "v2", "label"))},
 		{"edge-label-named-label-replace", 0, into(he("e1", "label", "v1", "v2", "label"))},
 		{"edge-label-named-label-bulk", 0, into(bulk(he("ne", "label", "v1", "v2", "label")))},
+		// not valid UTF-8 (reaches the store at the gdbi level only)
+		{"vertex-id-invalid-utf8", 0, into(hv("v1\xff", "A", "vertex-id"))},
+		{"vertex-label-invalid-utf8-replace", 0, into(hv("v1", "A\xff", "label"))},
+		{"edge-label-invalid-utf8-replace", 0, into(he("e1", "x\xff", "v1", "v2", "label"))},
+		{"edge-to-invalid-utf8-replace", 0, into(he("e1", "x", "v1", "v2\xff", "to"))},
+		{"edge-id-invalid-utf8", 0, into(he("e1\xc3(", "x", "v1", "v2", "edge-id"))},
 		// graph names with 0x00
 		{"graph-nul-existing-prefix", 0, func(ga, gb string) []Write {
 			return []Write{{Kind: "addGraph", Graph: []byte(ga + "\x00b"), Hostile: []string{"graph"}}}
@@ -105,6 +143,19 @@ func fixedCases() []fixed {
 		{"graph-empty-name", 0, func(ga, gb string) []Write {
 			return []Write{{Kind: "addGraph", Graph: []byte(""), Hostile: []string{"graph"}}}
 		}},
+		// property indices (AddIndex / ListIndices)
+		{"index-plain", 0, into(hidx("A", "k"))},
+		{"index-dot-label", 0, into(hidx("A.k", "f", "index-label"))},
+		{"index-nested-field", 0, into(hidx("A", "a.b", "index-field"))},
+		{"index-label-named-label", 0, into(hidx("label", "k", "index-label"))},
+		{"index-nul-label", 0, into(hidx("A\x00B", "k", "index-label"))},
+		{"index-then-string", 0, into(hidx("A", "k"), hval("v1", "A", "s"))},
+		{"index-then-bool-replace", 0, into(hidx("A", "k"), hval("v1", "A", true))},
+		{"index-then-bool-new", 0, into(hidx("A", "k"), hval("nv", "A", false))},
+		{"index-then-map", 0, into(hidx("A", "k"), hval("v1", "A", map[string]interface{}{"n": 1.0}))},
+		{"index-then-list-bulk", 0, into(hidx("A", "k"), bulk(hval("v1", "A", []interface{}{1.0})))},
+		{"index-then-null", 0, into(hidx("A", "k"), hval("v1", "A", nil))},
+		{"index-then-other-label", 0, into(hidx("A", "k"), hval("v2", "B", true))},
 		// controls: things that must simply work
 		{"control-unicode-ids", 0, into(hv("e\u0301\u202e\U0001F600 x", "L \t.l", "vertex-id", "label"), he("\u00e9/\\", "v", "v1", "e\u0301\u202e\U0001F600 x", "edge-id", "to"))},
 		{"control-family-letters", 1, into(hv("v", "e", "vertex-id", "label"), he("e", "v", "v", "s", "edge-id", "from"))},
@@ -129,6 +180,9 @@ func TestFixedCases(t *testing.T) {
 			ga, gb := gripx.FreshName(), gripx.FreshName()
 			c := Case{Level: level, GA: ga, GB: gb, Base: f.base, Writes: f.writes(ga, gb)}
 			c.Desc = f.name + ": " + describe(c.Writes)
+			if level == "server" && !utf8.ValidString(describeRaw(c.Writes)) {
+				continue // gRPC refuses invalid UTF-8 before the server sees it
+			}
 			pbt.Class(t, "fixed:"+f.name)
 			pbt.Current(t, c)
 			runCase(t, c)
@@ -201,4 +255,16 @@ func TestConfirmCrash(t *testing.T) {
 		confirmCrash(t, c)
 	}
 	pbt.Exhaustive(t)
+}
+
+// describeRaw concatenates the raw identifier components of the writes.
+func describeRaw(ws []Write) string {
+	var b []byte
+	for _, w := range ws {
+		b = append(b, w.Graph...)
+		for _, e := range w.Elems {
+			b = append(append(append(append(b, e.ID...), e.Label...), e.From...), e.To...)
+		}
+	}
+	return string(b)
 }
